@@ -151,7 +151,7 @@ fn attempt_word(
             };
             w.push(mk(event::Step::Started));
             if cfg.logs && r.chance(1, 6) {
-                w.push(Scenario::Log(format!("log line {}", nt())));
+                w.push(Scenario::Log(format!("log line {}\n", nt())));
             }
             if i == stop && outcome == 1 {
                 let err = if cfg.not_found && r.chance(1, 4) {
@@ -216,8 +216,20 @@ fn word_failed(w: &[event::RetryableScenario<TW>]) -> bool {
 /// Builds a synthetic stream. `interleave` = random topological order,
 /// otherwise sequential (already normalized).
 pub fn generate(seed: u64, index: u64, cfg: SynthCfg, interleave: bool, prof: &spec::Profile) -> SynthStream {
+    generate_with(seed, index, cfg, interleave, prof, |_, _| {})
+}
+
+pub fn generate_with(
+    seed: u64,
+    index: u64,
+    cfg: SynthCfg,
+    interleave: bool,
+    prof: &spec::Profile,
+    tweak: impl FnOnce(&mut Vec<FeatSpec>, &mut Rng),
+) -> SynthStream {
     let case = spec::generate(prof, seed ^ 0x5EED, index);
-    let feats: Vec<FeatSpec> = case.features().cloned().collect();
+    let mut feats: Vec<FeatSpec> = case.features().cloned().collect();
+    tweak(&mut feats, &mut Rng::new(seed ^ index.wrapping_mul(0x9E37)));
     let mut r = Rng::new(seed.wrapping_mul(77).wrapping_add(index));
     let mut tok = 1_000_000u64;
     let before = r.below(100) < cfg.hooks_pct;
@@ -539,5 +551,47 @@ pub fn from_items(items: &[Item]) -> SynthStream {
         n_scenarios: s_ids.len(),
         n_attempts: att_ids.len(),
         feats: Vec::new(),
+    }
+}
+
+/// Suffixes with quotes, markup, ampersands, non-ASCII (C14 workloads).
+pub const TRICKY: &[&str] = &[
+    "\"dq\"", "'sq'", "<tag>", "a&b", "é", "日本", "&amp;", "</testcase>", "\\n", "{json}", "[x]", "100%", "ünï çode",
+];
+
+/// Appends tricky suffixes to names and step texts. `cdata` additionally plants
+/// the CDATA terminator `]]>` somewhere (known to break the JUnit dependency).
+pub fn decorate(feats: &mut [FeatSpec], r: &mut Rng, cdata: bool) {
+    let mut sfx = |r: &mut Rng| -> String {
+        if r.chance(1, 2) { format!(" {}", r.pick(TRICKY)) } else { String::new() }
+    };
+    for f in feats.iter_mut() {
+        f.name.push_str(&sfx(r));
+        for s in f.bg.iter_mut() {
+            s.text.push_str(&sfx(r));
+        }
+        let mut scs: Vec<&mut ScSpec> = f.scenarios.iter_mut().collect();
+        for rule in f.rules.iter_mut() {
+            rule.name.push_str(&sfx(r));
+            for s in rule.bg.iter_mut() {
+                s.text.push_str(&sfx(r));
+            }
+            scs.extend(rule.scenarios.iter_mut());
+        }
+        for sc in scs {
+            sc.name.push_str(&sfx(r));
+            for s in sc.steps.iter_mut() {
+                s.text.push_str(&sfx(r));
+            }
+        }
+    }
+    if cdata {
+        if let Some(f) = feats.first_mut() {
+            if let Some(s) = f.scenarios.first_mut() {
+                s.name.push_str(" ]]>");
+            } else {
+                f.name.push_str(" ]]>");
+            }
+        }
     }
 }
